@@ -17,6 +17,11 @@ use std::time::Instant;
 
 pub const SHARDS: usize = 16;
 
+/// Analysis tools (tools/matrix.sh, refactor_matrix.sh) may scale case counts down; registered commands never set this.
+pub fn cases_percent() -> u64 {
+    std::env::var("VERIF_CASES_PERCENT").ok().and_then(|s| s.parse::<u64>().ok()).map(|p| p.clamp(1, 100)).unwrap_or(100)
+}
+
 pub fn hash64<T: Hash>(t: &T) -> u64 {
     let mut h = DefaultHasher::new();
     t.hash(&mut h);
